@@ -95,9 +95,11 @@ fn gen_reader(rng: &mut Rng, tier: &str) -> Vec<(String, Value)> {
         for size in [0, l.saturating_sub(1), l, l + 1, large] { for all in [false, true] {
             let mut chunkings: Vec<Vec<i64>> = vec![vec![size as i64]];
             if size > 1 {
-                chunkings.push(vec![(size - 1) as i64, 1]);
-                chunkings.push(vec![1, (size - 1) as i64]);
-                chunkings.push(vec![(size / 2) as i64, (size - size / 2) as i64]);
+                if size < 1_000_000 || all {
+                    chunkings.push(vec![(size - 1) as i64, 1]);
+                    chunkings.push(vec![1, (size - 1) as i64]);
+                    chunkings.push(vec![(size / 2) as i64, (size - size / 2) as i64]);
+                }
                 if l < size { chunkings.push(vec![l as i64, (size - l) as i64]); }
                 if size <= 2000 { chunkings.push(vec![1; size as usize]); }
                 let mp = if size > 100_000 { size / 3 } else { 40 };
